@@ -27,6 +27,8 @@ func main() {
 		repo := fs.String("repo", "/repo", "repository")
 		fs.Parse(os.Args[2:])
 		os.Exit(cmdFn(*repo, fs.Args(), *verbose, *timeout))
+	case "stage2":
+		os.Exit(cmdStage2(os.Args[2:]))
 	case "list":
 		ld, err := Load("/repo", "verif", "./...")
 		if err != nil {
@@ -120,4 +122,62 @@ func firstLines(s string, n int) string {
 	return strings.Join(ls, "\n    ")
 }
 
-func cmdMain(args []string) int { usage(); return 2 }
+
+func cmdStage2(args []string) int {
+	fs := flag.NewFlagSet("stage2", flag.ExitOnError)
+	verbose := fs.Bool("v", false, "print failing queries")
+	keep := fs.Bool("keep", false, "keep scratch dir")
+	repo := fs.String("repo", "/repo", "repository")
+	timeout := fs.Int("t", 10, "solver timeout (s)")
+	fs.Parse(args)
+	specs, err := LoadSpecs(specFilesIn(*repo))
+	if err != nil {
+		fmt.Println(err)
+		return 2
+	}
+	s2, err := PrepareStage2(*repo, "/verif/schema", scenarios("quick"), specs)
+	if err != nil {
+		fmt.Println("stage2:", err)
+		return 2
+	}
+	if !*keep {
+		defer s2.cleanup()
+	} else {
+		fmt.Println("scratch:", s2.Root)
+	}
+	fmt.Printf("build %.1fs moq %.1fs load %.1fs\n", s2.buildS, s2.moqS, s2.loadS)
+	s2.CheckAll()
+	dischargeAll(s2.obls, *timeout)
+	rc := 0
+	for _, e := range s2.errs {
+		fmt.Println("ERROR", e)
+		rc = 2
+	}
+	nt, ft := 0, 0
+	for _, t := range s2.tObls {
+		nt++
+		if !t.OK {
+			ft++
+			fmt.Printf("  TYPE-FAIL %s %v\n     %s\n", t.Name, t.Props, strings.ReplaceAll(t.Detail, "\n", "\n     "))
+		}
+	}
+	ags := aggregate(s2.obls)
+	nf := 0
+	for _, a := range ags {
+		if len(a.Failed) > 0 {
+			nf++
+			f := a.Failed[0]
+			fmt.Printf("  FAIL(%s) %s x%d %v\n     %s\n", f.Res.Status, a.Name, a.N, a.Props, f.Note)
+			if *verbose {
+				fmt.Printf("    file %s\n    %s\n", f.Res.File, firstLines(f.Res.Output, 30))
+			}
+		}
+	}
+	fmt.Printf("type obligations %d (failed %d); smt obligations %d in %d groups (failed groups %d)\n", nt, ft, len(s2.obls), len(ags), nf)
+	if ft > 0 || nf > 0 {
+		if rc == 0 {
+			rc = 1
+		}
+	}
+	return rc
+}
